@@ -70,8 +70,8 @@ def data_from(d):
     return np.array([hf(v) for v in d["v"]], dtype=float).reshape(d["shape"])
 
 
-RATES = [2.0, 1.0, 0.5, 10.0, 100.0, 3.0, 250.0, 0.7, 1.2296039445694542, np.pi]
-INTERVALS = [0.5, 0.81327, 2.0, 0.004, 1.5, 0.1]
+RATES = [2.0, 1.0, 0.5, 10.0, 100.0, 3.0, 250.0, 0.7, 1.2296039445694542, np.pi, 49.0, 7.3, 1.0 / 0.72, 123.456]
+INTERVALS = [0.5, 0.81327, 2.0, 0.004, 1.5, 0.1, 0.72, 0.36, 1.0 / 3.0, 0.0123]
 
 
 def gen_series(rng, nmin, nmax, odd=None):
@@ -150,16 +150,27 @@ def gen_band(rng, Fs, n, kind=None):
         if kind == "low":
             lb, ub = 0.0, b
         elif kind == "high":
-            lb, ub = a, rng.choice([None, nyq])
+            lb, ub = a, rng.choice([None, "nyq"])
         elif kind == "all":
-            lb, ub = 0.0, rng.choice([None, nyq])
+            lb, ub = 0.0, rng.choice([None, "nyq"])
         else:
             lb, ub = a, b
-        ue = nyq if ub is None else ub
+        ue = nyq if ub in (None, "nyq") else ub
         if 0 <= lb < ue <= nyq and (kind != "low" or ub > 0) and (kind != "high" or lb > 0) \
                 and (kind != "band" or (lb > 0 and ub < nyq)):
             return lb, ub, kind
     return 0.0, None, "all"
+
+
+def band_cfg(lb, ub):
+    """cfg entries of a band; ub == "nyq": the upper edge is EXACTLY float(series.sampling_rate) / 2"""
+    return {"lb": fh(lb), "ub": None if ub in (None, "nyq") else fh(ub), "ub_nyq": ub == "nyq"}
+
+
+def ub_of(cfg, T):
+    if cfg.get("ub_nyq"):
+        return float(T.sampling_rate) / 2
+    return None if cfg["ub"] is None else hf(cfg["ub"])
 
 
 # ------------------------------------------------------------------ library boundary
@@ -196,7 +207,7 @@ def record():
 
 def analyzer(T, cfg):
     from nitime.analysis import FilterAnalyzer
-    ub = None if cfg["ub"] is None else hf(cfg["ub"])
+    ub = ub_of(cfg, T)
     lb = hf(cfg["lb"])
     variant = cfg.get("call", "keyword")
     if variant == "positional":
@@ -215,8 +226,11 @@ def run_method(T, cfg, method):
     with record() as rec:
         try:
             F = analyzer(T, cfg)
+            if method.endswith("_after_fourier"):
+                F.filtered_fourier          # with ub=None this stores self.ub = freqs[-1] (= Fs/2) on the analyzer
+                rec["firwin"].clear(), rec["filtfilt"].clear(), rec["iirdesign"].clear()
             out = {"fourier": lambda: F.filtered_fourier, "fir": lambda: F.fir, "iir": lambda: F.iir,
-                   "boxcar": lambda: F.filtered_boxcar}[method]()
+                   "boxcar": lambda: F.filtered_boxcar}[method.split("_after_")[0]]()
             return out, None, rec
         except Exception as e:  # noqa
             return None, type(e).__name__, rec
@@ -298,7 +312,7 @@ def cases_of(sc):
     Fs = float(T.sampling_rate)
     cfg = sc["cfg"]
     lb = hf(cfg["lb"])
-    ub = None if cfg["ub"] is None else hf(cfg["ub"])
+    ub = ub_of(cfg, T)
     n = sc["n"]
     xs = rows(T.data)
     out_cases = []
@@ -313,18 +327,21 @@ def cases_of(sc):
     for method in sc["methods"]:
         out, err, rec = run_method(T, cfg, method)
         res[method] = (out, err, rec)
+        base = method.split("_after_")[0]
+        # what the analyzer holds as ub when the method runs (filtered_fourier stores freqs[-1] = Fs/2 for ub=None)
+        ub_m = (Fs / 2 if ub is None else ub) if "_after_" in method else ub
         aout = None if out is None else axis_of(out)
         ys = None if out is None else rows(out.data)
-        if method == "fourier":
+        if base == "fourier":
             add(k_axis("MFourier", ain, aout), "axis-fourier")
             if out is not None and len(ys) == len(xs) and fourier_robust(Fs, n, lb, ub):
                 for x, y in zip(xs, ys):
-                    add("(KFourier %s %s %s %s %s %s)" % (nlit(n), flit(Fs), flit(lb), olit(ub, flit),
+                    add("(KFourier %s %s %s %s %s %s)" % (nlit(n), flit(Fs), flit(lb), olit(ub_m, flit),
                                                          clist(fftpack.fft(x)), clist(fftpack.fft(y))), "fourier")
-        elif method == "fir":
+        elif base == "fir":
             nst = len(rec["firwin"])
             if err == "ValueError" and nst == 0:
-                add("(KFirPlan %s %s %s %s %s PErr)" % (flit(Fs), flit(lb), olit(ub, flit), nlit(cfg["order"]), nlit(n)),
+                add("(KFirPlan %s %s %s %s %s PErr)" % (flit(Fs), flit(lb), olit(ub_m, flit), nlit(cfg["order"]), nlit(n)),
                     "fir-plan", nontrivial=False)
             elif out is not None:
                 add(k_axis("(MFir %s)" % nlit(nst), ain, aout), "axis-fir")
@@ -340,7 +357,7 @@ def cases_of(sc):
                     add(k_taps(hp, fw, b), "fir-taps")
                     if ok_struct:
                         add(k_taps(False, [1.0], ff[s * nch][1]), "fir-a")
-                add("(KFirPlan %s %s %s %s %s (PCalls %s))" % (flit(Fs), flit(lb), olit(ub, flit), nlit(cfg["order"]),
+                add("(KFirPlan %s %s %s %s %s (PCalls %s))" % (flit(Fs), flit(lb), olit(ub_m, flit), nlit(cfg["order"]),
                                                                nlit(n), llit(calls)), "fir-plan")
                 if ok_struct and len(ys) == nch:
                     for c in range(nch):
@@ -349,15 +366,15 @@ def cases_of(sc):
                             add(k_chain(n, xs[c], raws[:s], ff[s * nch + c][2]), "fir-stage-input")
                         add(k_chain(n, xs[c], raws, ys[c]), "fir-chain")
                 else:
-                    add("(KFirPlan %s %s %s %s %s PErr)" % (flit(Fs), flit(lb), olit(ub, flit), nlit(cfg["order"]), nlit(n)),
+                    add("(KFirPlan %s %s %s %s %s PErr)" % (flit(Fs), flit(lb), olit(ub_m, flit), nlit(cfg["order"]), nlit(n)),
                         "fir-structure")   # deliberately disagreeing: call structure is not stage x channel
-        elif method == "iir":
+        elif base == "iir":
             if rec["iirdesign"]:
                 e = rec["iirdesign"][0]
-                add("(KIir %s %s %s (ICall %s %s))" % (flit(Fs), flit(lb), olit(ub, flit), flist(e["wp"]), flist(e["ws"])),
+                add("(KIir %s %s %s (ICall %s %s))" % (flit(Fs), flit(lb), olit(ub_m, flit), flist(e["wp"]), flist(e["ws"])),
                     "iir-spec")
             elif err == "UnboundLocalError":
-                add("(KIir %s %s %s IUnbound)" % (flit(Fs), flit(lb), olit(ub, flit)), "iir-spec", nontrivial=False)
+                add("(KIir %s %s %s IUnbound)" % (flit(Fs), flit(lb), olit(ub_m, flit)), "iir-spec", nontrivial=False)
             if out is not None:
                 add(k_axis("MIir", ain, aout), "axis-iir")
                 ff = rec["filtfilt"]
@@ -369,14 +386,14 @@ def cases_of(sc):
                         add(k_chain(n, xs[c], [], ff[c][2]), "iir-input")
                         add(k_chain(n, xs[c], [ff[c][3]], ys[c]), "iir-chain")
                 else:
-                    add("(KIir %s %s %s IUnbound)" % (flit(Fs), flit(lb), olit(ub, flit)), "iir-structure")
-        elif method == "boxcar":
+                    add("(KIir %s %s %s IUnbound)" % (flit(Fs), flit(lb), olit(ub_m, flit)), "iir-structure")
+        elif base == "boxcar":
             if out is not None:
                 add(k_axis("MBoxcar", ain, aout), "axis-boxcar")
             if box_robust(Fs, lb, ub) and (out is not None and len(ys) == len(xs) or err == "UnboundLocalError"):
                 for c in range(len(xs)):
                     y = ys[c] if out is not None else []
-                    add("(KBoxcar %s %s %s %s %s %s %s %s)" % (nlit(n), flit(Fs), flit(lb), olit(ub, flit),
+                    add("(KBoxcar %s %s %s %s %s %s %s %s)" % (nlit(n), flit(Fs), flit(lb), olit(ub_m, flit),
                                                               nlit(cfg["iters"]), flist(xs[c]), flist(y),
                                                               blit(out is None)), "boxcar", nontrivial=out is not None)
     return out_cases, res
@@ -601,23 +618,36 @@ def oracle(sc, res=None):
     cfg = sc["cfg"]
     Fs = spec_rate_hz(sc)          # from the scenario, not from the library object
     lb = hf(cfg["lb"])
-    ub = None if cfg["ub"] is None else hf(cfg["ub"])
+    ub = ub_of(cfg, T)
     ain = axis_of(T)
     n = sc["n"]
-    allpass = lb == 0 and (ub is None or ub == Fs / 2)
+    ub_is_nyq = ub is None or bool(cfg.get("ub_nyq")) or ub == Fs / 2
+    allpass = lb == 0 and ub_is_nyq
     if res is None:
         res = {m: run_method(T, cfg, m) for m in sc["methods"]}
-    for method in sc["methods"]:
-        out, err, rec = res[method]
+    for full_method in sc["methods"]:
+        out, err, rec = res[full_method]
+        method = full_method.split("_after_")[0]
         numkey = None
         site = {"fourier": "filtered_fourier", "fir": "fir", "iir": "iir", "boxcar": "filtered_boxcar"}[method]
+        if full_method != method:
+            site += "(after filtered_fourier)"
         if out is None:
-            expected_err = (method == "iir" and (allpass or err == "ValueError")) or \
+            expected_err = (method == "iir" and allpass) or \
                            (method == "fir" and cfg["order"] + 1 > 3 * n) or \
                            (method == "boxcar" and cfg["iters"] == 0)
-            # iir: scipy rejects some designs / short series (library precondition), all-pass is no filter setting
+            key = "C18/%s/raises" % site
+            if method == "iir" and not expected_err and err == "ValueError" and rec["iirdesign"]:
+                e = rec["iirdesign"][0]
+                if e["res"] is not None and n <= 3 * max(len(e["res"][0]), len(e["res"][1])):
+                    expected_err = True      # scipy.signal.filtfilt's own precondition: len(x) > padlen
+                elif e["res"] is None and iir_spec_flipped(rec, lb, ub_is_nyq) and \
+                        not (lb > 0 and ub_is_nyq and len(e["wp"]) != 1):
+                    key = K_IIRSPEC          # the known clamp defect makes iirdesign reject the specification
+            # an admissible band (0 <= lb < ub <= Nyquist, not all-pass) must not raise
             if not expected_err:
-                fails.append(Fail("C18/%s/raises" % site, "%s raised %s" % (site, err), err, "a filtered series"))
+                fails.append(Fail(key, "%s raised %s for lb=%r ub=%r (Nyquist %r)" % (site, err, lb, ub, Fs / 2), err,
+                                  "a filtered series"))
             continue
         if method == "fir" and n <= 3 * (cfg["order"] + 1):
             continue
@@ -642,8 +672,8 @@ def oracle(sc, res=None):
         # linearity: f(a x + b z) = a f(x) + b f(z), z a deterministic second data set
         z = (np.cos(0.37 * np.arange(T.data.size).reshape(T.data.shape) ** 1.3) + 1.0) * sc_
         a_, b_ = 1.5, -0.75
-        o2, e2 = run_method(build_series(sc, z), cfg, method)[:2]
-        o3, e3 = run_method(build_series(sc, a_ * T.data + b_ * z), cfg, method)[:2]
+        o2, e2 = run_method(build_series(sc, z), cfg, full_method)[:2]
+        o3, e3 = run_method(build_series(sc, a_ * T.data + b_ * z), cfg, full_method)[:2]
         if o2 is not None and o3 is not None:
             d = np.max(np.abs(o3.data - (a_ * out.data + b_ * o2.data)))
             # elliptic / Chebyshev recursions in (b, a) form amplify rounding: looser for iir
@@ -651,6 +681,16 @@ def oracle(sc, res=None):
                 if method == "iir" and iir_ba_rounding(T, cfg, rec) > 1e-6:
                     numkey = K_IIR
                 fails.append(Fail(numkey or "C18/%s/linearity" % site, "%s is not linear in the data" % site, float(d), 0.0))
+        # an upper edge exactly at Nyquist (given explicitly, or left behind by filtered_fourier) is no upper edge:
+        # fir / iir must return what they return for ub=None
+        if method in ("fir", "iir") and ub_is_nyq and (ub is not None or full_method != method):
+            cfg0 = dict(cfg, ub=None, ub_nyq=False)
+            o5 = run_method(build_series(sc), cfg0, method)[0]
+            if o5 is not None and o5.data.shape == out.data.shape:
+                d = float(np.max(np.abs(o5.data - out.data)))
+                if d > 1e-9 * sc_:
+                    fails.append(Fail("C18/%s/nyquist-vs-none" % site, "%s with ub = Nyquist differs from %s with ub = None" % (site, method),
+                                      d, 0.0))
         if method == "fourier":
             for c, (x, y) in enumerate(zip(xs, ys)):
                 r = true_band_fail(x, y, Fs, lb, ub)
@@ -762,7 +802,7 @@ def gen_scenario(rng, nmax, i):
     Fs = spec_rate_hz(s)
     lb, ub, kind = gen_band(rng, Fs, s["n"])
     order = rng.choice([2, 4, 6, 8, 8, 10, 12])
-    s["cfg"] = {"lb": fh(lb), "ub": None if ub is None else fh(ub), "order": order,
+    s["cfg"] = {**band_cfg(lb, ub), "order": order,
                 "iters": rng.choice([1, 2, 2, 3, 4]), "win": rng.choice(["hamming", "hamming", "hann", "blackman"]),
                 "ftype": rng.choice(["ellip", "ellip", "butter", "cheby1"])}
     s["band"] = kind
@@ -826,6 +866,33 @@ def large_scenarios(rng, sizes, kcase_sizes=()):
     return out
 
 
+def boundary_scenarios(rng, reps=1):
+    """band edges exactly on the boundary values the statement allows (lb = 0, ub = Nyquist exactly, ub = None,
+    ub = None after filtered_fourier stored Fs/2) crossed with sampling rates / intervals whose reciprocal is
+    inexact in binary64; fir and iir"""
+    specs = [{"rate": fh(49.0)}, {"interval": fh(0.72)}, {"interval": fh(0.36)}, {"interval": fh(1.0 / 3.0)},
+             {"rate": fh(7.3)}, {"rate": fh(123.456)}, {"rate": fh(1.0 / 0.72)}, {"interval": fh(0.0123)}]
+    out = []
+    for _ in range(reps):
+        specs2 = specs + [{"rate": fh(rng.uniform(0.3, 300.0))}, {"interval": fh(rng.uniform(0.003, 3.0))}]
+        for i, spec in enumerate(specs2):
+            for kind in ("high-nyq", "high-none", "high-after-fourier", "low", "all-nyq", "band"):
+                n = rng.choice([50, 51, 60, 63])
+                ch = rng.choice([0, 1, 2])
+                sc = {"n": n, "ch": ch, "unit": "s" if "interval" in spec else rng.choice(["s", "ms"]),
+                      "t0": fh(rng.choice([0.0, 5.0, 1.25])), "spec": spec, "data": data_json(make_data(rng, n, ch, 0))}
+                Fs = spec_rate_hz(sc)
+                lo = rng.uniform(0.25, 0.45) * Fs / 2
+                hi = rng.uniform(0.55, 0.8) * Fs / 2
+                lb, ub = {"high-nyq": (lo, "nyq"), "high-none": (lo, None), "high-after-fourier": (lo, None),
+                          "low": (0.0, hi), "all-nyq": (0.0, "nyq"), "band": (lo, hi)}[kind]
+                sc["cfg"] = {**band_cfg(lb, ub), "order": rng.choice([4, 8]), "iters": 2, "win": "hamming", "ftype": "ellip"}
+                sc["band"] = kind
+                sc["methods"] = ["fir_after_fourier", "iir_after_fourier"] if kind == "high-after-fourier" else ["fir", "iir"]
+                out.append(sc)
+    return out
+
+
 def special_scenarios(rng):
     out = []
     # short series: only the Fourier filter and the boxcar apply (fir / iir need 3 (order + 1) samples)
@@ -836,7 +903,7 @@ def special_scenarios(rng):
             s["data"] = data_json(make_data(rng, n, s["ch"]))
             Fs = spec_rate_hz(s)
             lb, ub, kind = gen_band(rng, Fs, n)
-            s["cfg"] = {"lb": fh(lb), "ub": None if ub is None else fh(ub), "order": 2, "iters": rng.choice([1, 2, 3])}
+            s["cfg"] = {**band_cfg(lb, ub), "order": 2, "iters": rng.choice([1, 2, 3])}
             s["band"] = kind
             s["methods"] = ["fourier", "boxcar"]
             out.append(s)
@@ -884,7 +951,8 @@ def run(ctx):
     rng = ctx.rng
     nmax = ctx.scale(64, 128)
     big = [1024, 1025, 2049, 4097, 1031, 3000, 4096] + ([] if ctx.quick else [8193, 16385, 10007, 2048, 5000, 997])
-    scen = corpus() + special_scenarios(rng) + large_scenarios(rng, big, kcase_sizes=(257, 258)) + \
+    scen = corpus() + special_scenarios(rng) + boundary_scenarios(rng, ctx.scale(1, 4)) + \
+        large_scenarios(rng, big, kcase_sizes=(257, 258)) + \
         [gen_scenario(rng, nmax, i) for i in range(ctx.scale(60, 320))]
     cases, results = [], []
 
